@@ -43,6 +43,7 @@ class SimNet:
         self.on_finished = None             # optional callback(name)
         self.after_step = None              # optional callback(simnet)
         self.wire_failures = []
+        self.trace = None                   # set to [] to keep (seq, step, src, dst, msg, sender cycle)
 
     # ----------------------------------------------------------------- wiring
     def add(self, comp, name=None):
@@ -80,6 +81,9 @@ class SimNet:
         if self.wire:
             msg = self._through_wire(src, dst, msg)
         self.sent.append((self.seq, self.step, src, dst, getattr(msg, "type", None)))
+        if self.trace is not None:
+            self.trace.append((self.seq, self.step, src, dst, msg,
+                               getattr(self.comps.get(src), "cycle_count", None)))
         self.channels.setdefault((src, dst), deque()).append((self.seq, msg))
 
     _inside = None
